@@ -83,6 +83,8 @@ def r1_template(ctx, chk, rule="C11.1"):
             return piece_text(inner)
         if t[0] == "call" and t[1] == "str" and t[2] and t[2][0][0] == "call" and t[2][0][1] in ("int", "float", "round"):
             return "7"
+        if t[0] == "idx" and t[1][0] in ("list", "tup") and all(is_const(x) and isinstance(x[1], str) and "\n" not in x[1] for x in t[1][1]):
+            return "X"
         if t[0] == "idx" and t[1][0] == "v":
             # look-up in a module-level table of strings
             ok, val = ctx.prog.try_const(ast.Name(id=t[1][1], ctx=ast.Load()), f.mod)
